@@ -14,7 +14,7 @@
    Main result  ct_query_audit_true: for a metric d, a tree satisfying ct_inv_b whose leaves are pairwise
    distinct, every result of ct_query (either copy radius) carries the flag true. *)
 From Coq Require Import List ZArith Bool Lia.
-From TK Require Import Knn_Spec CoverTree_Model CoverTree_Proof.
+From TK Require Import Knn_Spec Knn_CoverSel_Model CoverTree_Model CoverTree_Proof Knn_CoverQuery_Proof.
 Import ListNotations.
 Local Open Scope Z_scope.
 
@@ -876,18 +876,51 @@ Qed.
 Lemma AInv_point : forall Q Q' Sn w0 ub F, c_p Q' = c_p Q -> AInv Q Sn w0 ub F -> AInv Q' Sn w0 ub F.
 Proof. intros Q Q' Sn w0 ub F E [H1 H2]. split; [now rewrite E | assumption]. Qed.
 
+(* the rows: duplicate-free lists of samples *)
+Definition shape (rows : list row) : Prop := forall q cands, In (q, cands) rows -> NoDup cands /\ incl cands pts.
+
+Lemma shape_app : forall r1 r2, shape r1 -> shape r2 -> shape (r1 ++ r2).
+Proof. intros r1 r2 H1 H2 q c Hin. apply in_app_or in Hin. destruct Hin as [H|H]; [exact (H1 q c H) | exact (H2 q c H)]. Qed.
+
+Lemma shape_nil : shape [].
+Proof. intros q c []. Qed.
+
+Lemma zero_points : forall zero (f : dnode -> bool),
+  (forall x, (cnt (lvs (zn zero)) x <= 1)%nat) -> (forall e, In e (zn zero) -> nok e) ->
+  NoDup (map (fun e => c_p (snd e)) (filter f zero)) /\ incl (map (fun e => c_p (snd e)) (filter f zero)) pts /\
+  forall y, In y (map (fun e => c_p (snd e)) (filter f zero)) -> In y (lvs (zn zero)).
+Proof.
+  intros zero f. induction zero as [|e rest IH]; intros Hc Hn.
+  - cbn. split; [constructor|]. split; intros y [].
+  - assert (Hc' : forall x, (cnt (lvs (zn rest)) x <= 1)%nat).
+    { intros x. specialize (Hc x). unfold zn in *. cbn [map] in Hc. rewrite cnt_lvs_cons in Hc. lia. }
+    assert (Hn' : forall e0, In e0 (zn rest) -> nok e0) by (intros e0 He0; apply Hn; now right).
+    destruct (IH Hc' Hn') as [H1 [H2 H3]].
+    assert (Hstep : forall y, In y (map (fun e0 => c_p (snd e0)) (filter f rest)) -> In y (lvs (zn (e :: rest)))).
+    { intros y Hy. unfold zn. cbn [map]. rewrite lvs_cons. apply in_or_app. right. now apply H3. }
+    cbn [filter]. destruct (f e); [|split; [assumption | split; assumption]].
+    assert (He : nok (snd e)) by (apply Hn; now left).
+    destruct (nok_point_in (snd e) He) as [Hpin Hppts].
+    cbn [map]. split; [|split].
+    + constructor; [|assumption]. intros Hy. apply H3 in Hy. apply cnt_pos in Hy. apply cnt_pos in Hpin.
+      specialize (Hc (c_p (snd e))). unfold zn in Hc. cbn [map] in Hc. rewrite cnt_lvs_cons in Hc. unfold zn in Hy. lia.
+    + intros y [<-|Hy]; [assumption | now apply H2].
+    + intros y [<-|Hy]; [|now apply Hstep]. unfold zn. cbn [map]. rewrite lvs_cons. apply in_or_app. now left.
+Qed.
+
 Definition bn_t := ctree -> list dnode -> list ext -> bool -> list row * bool.
 Definition bn_aud (bn : bn_t) (chi : ctree) : Prop :=
-  forall z u o Sn w0 rows ok', bn chi z u o = (rows, ok') -> AInv chi Sn w0 u (zn z) -> ok' = o.
+  forall z u o Sn w0 rows ok', bn chi z u o = (rows, ok') -> AInv chi Sn w0 u (zn z) -> ok' = o /\ shape rows.
 
 Lemma bn_others_audit : forall (bn : bn_t) Q Sn w0 ub zero l,
   (forall chi, In chi l -> bn_aud bn chi) ->
   AInv Q Sn w0 ub (zn zero) -> nok Q ->
   (forall chi, In chi l -> nok chi /\ dd d (c_p Q) (c_p chi) <= c_pard chi) ->
-  forall acc okk rows ok', bn_others oc d K au bn ub zero l acc okk = (rows, ok') -> ok' = okk.
+  forall acc okk rows ok', bn_others oc d K au bn ub zero l acc okk = (rows, ok') -> shape acc ->
+  ok' = okk /\ shape rows.
 Proof.
-  intros bn Q Sn w0 ub zero l. induction l as [|chi l IH]; intros Hbn HA HQ Hl acc okk rows ok' E.
-  - cbn in E. now injection E.
+  intros bn Q Sn w0 ub zero l. induction l as [|chi l IH]; intros Hbn HA HQ Hl acc okk rows ok' E Hacc.
+  - cbn in E. injection E as <- <-. now split.
   - change (bn_others oc d K au bn ub zero (chi :: l) acc okk) with
       (let nub := setter K (eadd (ub0 ub) (c_pard chi)) in
        let '(nub1, nzero, ok1) := copy_zero_set oc d au chi nub zero okk in
@@ -902,8 +935,9 @@ Proof.
         [intros x; lia | auto]. }
     destruct (copy_child_audit Q Sn w0 ub 0 [] zero chi 0 okk nub1 nzero ok1 nub1 [] ok1 HA' ltac:(intros e []) HQ Hchi Hpd
                 E1 eq_refl) as [-> [_ [S1 [_ [H1 _]]]]].
-    pose proof (Hbn chi (or_introl eq_refl) _ _ _ _ _ _ _ E2 H1) as ->.
+    destruct (Hbn chi (or_introl eq_refl) _ _ _ _ _ _ _ E2 H1) as [-> Hsh1].
     apply (IH (fun c Hc => Hbn c (or_intror Hc)) HA HQ (fun c Hc => Hl c (or_intror Hc)) _ _ _ _ E).
+    now apply shape_app.
 Qed.
 
 Lemma size_child_le_a : forall chi l, In chi l -> (size chi <= fold_right (fun c a => (size c + a)%nat) O l)%nat.
@@ -923,17 +957,19 @@ Lemma brute_nearest_audit : forall n Q, (size Q <= n)%nat -> nok Q -> bn_aud (br
 Proof.
   induction n as [|n IH]; intros Q Hsz HQ; [destruct Q; cbn [size] in Hsz; lia|].
   intros zero ub ok Sn w0 rows ok' E HA. destruct Q as [p m pd sc ch]. destruct ch as [|c0 rest].
-  - cbn [brute_nearest] in E. injection E as _ <-. destruct HA as [Hs _].
-    rewrite (seen_valid false _ Sn w0 ub Hs). apply andb_true_r.
+  - cbn [brute_nearest] in E. injection E as <- <-. destruct HA as [Hs [Hc [Hn _]]]. split.
+    + rewrite (seen_valid false _ Sn w0 ub Hs). apply andb_true_r.
+    + intros q cands [Hin|[]]. unfold final_row in Hin. injection Hin as _ <-.
+      destruct (zero_points zero (fun e => le_e (fst e) (ub0 ub)) Hc Hn) as [H1 [H2 _]]. now split.
   - cbn [brute_nearest] in E. cbn [size fold_right] in Hsz.
     destruct (brute_nearest oc d K au c0 zero ub ok) as [rows0 ok0] eqn:E0.
     destruct (children_facts p m pd sc c0 rest HQ) as [Hp0 Hch].
-    assert (H0 : ok0 = ok).
+    assert (H0 : ok0 = ok /\ shape rows0).
     { apply (IH c0 ltac:(lia) (proj1 (Hch c0 (or_introl eq_refl))) zero ub ok Sn w0 rows0 ok0 E0).
       apply (AInv_point (CN p m pd sc (c0 :: rest))); [exact Hp0 | assumption]. }
-    subst ok0.
+    destruct H0 as [-> Hsh0].
     apply (bn_others_audit (fun c z u o => brute_nearest oc d K au c z u o) (CN p m pd sc (c0 :: rest)) Sn w0 ub zero rest)
-      with (acc := rows0) (rows := rows); try assumption.
+      with (acc := rows0); try assumption.
     + intros chi Hc. apply IH; [pose proof (size_child_le_a chi rest Hc); lia | apply (Hch chi); now right].
     + intros chi Hc. apply (Hch chi). now right.
 Qed.
@@ -941,16 +977,17 @@ Qed.
 Definition rec_ta := ctree -> list centry -> list dnode -> nat -> nat -> list ext -> bool -> option (list row * bool).
 Definition rec_aud (rec : rec_ta) (chi : ctree) : Prop :=
   forall cv z cs ms u o Sn w0 rows ok', rec chi cv z cs ms u o = Some (rows, ok') ->
-    AInv chi Sn w0 u (Fst cs cv z) -> inner (cn (geq cs) cv) -> ok' = o.
+    AInv chi Sn w0 u (Fst cs cv z) -> inner (cn (geq cs) cv) -> ok' = o /\ shape rows.
 
 Lemma ib_loop_audit : forall (rec : rec_ta) Q Sn w0 ub cover zero cs ms l,
   (forall chi, In chi l -> rec_aud rec chi) ->
   AInv Q Sn w0 ub (Fst cs cover zero) -> inner (cn (geq cs) cover) -> nok Q ->
   (forall chi, In chi l -> nok chi /\ dd d (c_p Q) (c_p chi) <= c_pard chi) ->
-  forall acc okk rows ok', ib_loop oc d K au rec ub cover zero cs ms l acc okk = Some (rows, ok') -> ok' = okk.
+  forall acc okk rows ok', ib_loop oc d K au rec ub cover zero cs ms l acc okk = Some (rows, ok') -> shape acc ->
+  ok' = okk /\ shape rows.
 Proof.
-  intros rec Q Sn w0 ub cover zero cs ms l. induction l as [|chi l IH]; intros Hrec HA Hinn HQ Hl acc okk rows ok' E.
-  - cbn in E. now injection E.
+  intros rec Q Sn w0 ub cover zero cs ms l. induction l as [|chi l IH]; intros Hrec HA Hinn HQ Hl acc okk rows ok' E Hacc.
+  - cbn in E. injection E as <- <-. now split.
   - change (ib_loop oc d K au rec ub cover zero cs ms (chi :: l) acc okk) with
       (let nub := setter K (eadd (ub0 ub) (c_pard chi)) in
        let '(nub1, nzero, ok1) := copy_zero_set oc d au chi nub zero okk in
@@ -966,8 +1003,9 @@ Proof.
     destruct (Hl chi (or_introl eq_refl)) as [Hchi Hpd].
     destruct (copy_child_audit Q Sn w0 ub cs cover zero chi (S ms - cs) okk nub1 nzero ok1 nub2 ncover ok2 HA Hinn HQ Hchi Hpd
                 E1 E2) as [-> [-> [S1 [S2 [_ [H2 Hinn2]]]]]].
-    pose proof (Hrec chi (or_introl eq_refl) _ _ _ _ _ _ _ _ _ _ E3 H2 Hinn2) as ->.
+    destruct (Hrec chi (or_introl eq_refl) _ _ _ _ _ _ _ _ _ _ E3 H2 Hinn2) as [-> Hsh1].
     apply (IH (fun c Hc => Hrec c (or_intror Hc)) HA Hinn HQ (fun c Hc => Hl c (or_intror Hc)) _ _ _ _ E).
+    now apply shape_app.
 Qed.
 
 Lemma internal_batch_audit : forall fuel Q, nok Q -> rec_aud (internal_batch oc d K au fuel) Q.
@@ -984,23 +1022,26 @@ Proof.
       destruct (ib_loop oc d K au (internal_batch oc d K au f) ub cover zero cs ms rest [] ok) as [[rows1 ok1]|] eqn:E1;
         [|discriminate].
       destruct (internal_batch oc d K au f c0 cover zero cs ms ub ok1) as [[rows0 ok2]|] eqn:E0; [|discriminate].
-      injection E as _ <-.
+      injection E as <- <-.
       destruct (children_facts p m pd sc c0 rest HQ) as [Hp0 Hch].
-      assert (H1 : ok1 = ok).
+      assert (H1 : ok1 = ok /\ shape rows1).
       { apply (ib_loop_audit (internal_batch oc d K au f) (CN p m pd sc (c0 :: rest)) Sn w0 ub cover zero cs ms rest)
-          with (acc := []) (rows := rows1); try assumption.
+          with (acc := []); try assumption.
         - intros chi Hc. apply IH. apply (Hch chi). now right.
-        - intros chi Hc. apply (Hch chi). now right. }
-      subst ok1.
-      apply (IH c0 (proj1 (Hch c0 (or_introl eq_refl))) cover zero cs ms ub ok Sn w0 rows0 ok2 E0); [|assumption].
-      apply (AInv_point (CN p m pd sc (c0 :: rest))); [exact Hp0 | assumption].
+        - intros chi Hc. apply (Hch chi). now right.
+        - apply shape_nil. }
+      destruct H1 as [-> Hsh1].
+      assert (H0 : ok2 = ok /\ shape rows0).
+      { apply (IH c0 (proj1 (Hch c0 (or_introl eq_refl))) cover zero cs ms ub ok Sn w0 rows0 ok2 E0); [|assumption].
+        apply (AInv_point (CN p m pd sc (c0 :: rest))); [exact Hp0 | assumption]. }
+      destruct H0 as [-> Hsh0]. split; [reflexivity | now apply shape_app].
     + destruct (descend_audit Q cs Sn w0 ub ms cover zero ok HA Hinn) as [Hok [S' [HA' Hinn']]].
       rewrite <- Hok. apply (IH Q HQ _ _ _ _ _ _ S' w0 rows ok' E HA' Hinn').
 Qed.
 
 Lemma ct_query_audit : forall fuel top rows ok,
   ct_query oc d K au fuel top = Some (rows, ok) ->
-  nok top -> NoDup (lp top) -> is_leaf top = false -> ok = true.
+  nok top -> NoDup (lp top) -> is_leaf top = false -> ok = true /\ shape rows.
 Proof.
   intros fuel top rows ok E Htop Hnd Hnl. unfold ct_query in E.
   set (p := c_p top) in *. set (d0 := dd d p p) in *.
@@ -1028,6 +1069,19 @@ Theorem ct_query_audit_true_lemma : forall oc d dom top K fuel rows ok,
 Proof.
   intros oc d dom top K fuel rows ok Hm Hdom Hinv Hnd Hnl E.
   destruct (dd_metric dom d Hm) as [Hs Ht].
+  refine (proj1 _). apply (ct_query_audit oc d (leaf_points top) K dom Hs Ht Hdom fuel top rows ok E); try assumption.
+  split; [assumption | apply incl_refl].
+Qed.
+
+(* every row of the result is a duplicate-free list of samples of the tree *)
+Theorem ct_query_rows_shape_lemma : forall oc d dom top K fuel rows ok,
+  metric_on dom d -> (forall x, In x (leaf_points top) -> dom x) ->
+  ct_inv_b d top = true -> NoDup (leaf_points top) -> is_leaf top = false ->
+  ct_query oc d K (valid_b d (leaf_points top) K) fuel top = Some (rows, ok) ->
+  forall q cands, In (q, cands) rows -> NoDup cands /\ incl cands (leaf_points top).
+Proof.
+  intros oc d dom top K fuel rows ok Hm Hdom Hinv Hnd Hnl E.
+  destruct (dd_metric dom d Hm) as [Hs Ht].
   apply (ct_query_audit oc d (leaf_points top) K dom Hs Ht Hdom fuel top rows ok E); try assumption.
   split; [assumption | apply incl_refl].
 Qed.
@@ -1045,4 +1099,25 @@ Proof.
   intros d dom top K fuel rows ok Hm Hdom Hinv Hnd Hnl E.
   pose proof (ct_query_audit_true_lemma false d dom top K fuel rows ok Hm Hdom Hinv Hnd Hnl E) as ->.
   apply (ct_query_complete_partial_lemma d dom top K fuel rows Hm Hdom Hinv Hnl E).
+Qed.
+
+(* the cover-tree method end to end on the model: query (repaired radius) + repaired selection give exactly the k
+   nearest other samples for every row, on any tree that passes the two checkers.  The only facts left to the
+   run-time checks are about the TREE (ct_inv_b, ct_holds_b) and the shape of the returned row (nodup_b, range). *)
+Theorem covertree_model_exact_lemma : forall d N top k fuel rows ok q cands,
+  metric_on (in_range N) d -> (k < N)%nat ->
+  ct_inv_b d top = true -> ct_holds_b N top = true -> is_leaf top = false ->
+  ct_query false d (S k) (valid_b d (leaf_points top) (S k)) fuel top = Some (rows, ok) ->
+  In (q, cands) rows -> nodup_b cands = true ->
+  forallb (fun j => (0 <=? j) && (j <? Z.of_nat N)) cands = true ->
+  exists l, ct_select_fixed d (q :: cands) k = Some l /\ is_knn d N q k l.
+Proof.
+  intros d N top k fuel rows ok q cands Hm Hk Hinv Hholds Hnl E Hin Hnd Hrng.
+  pose proof (ct_holds_b_sound N top Hholds) as Hperm.
+  assert (Hdom : forall x, In x (leaf_points top) -> in_range N x).
+  { intros x Hx. apply (Permutation.Permutation_in _ Hperm) in Hx. now apply samples_In in Hx. }
+  assert (Hndl : NoDup (leaf_points top)).
+  { unfold ct_holds_b in Hholds. rewrite !andb_true_iff in Hholds. destruct Hholds as [[H _] _]. now apply nodup_b_spec. }
+  pose proof (ct_query_audit_true_lemma false d (in_range N) top (S k) fuel rows ok Hm Hdom Hinv Hndl Hnl E) as ->.
+  apply (covertree_model_exact_partial_lemma d N top k fuel rows q cands Hm Hk Hinv Hholds Hnl E Hin Hnd Hrng).
 Qed.
